@@ -34,9 +34,13 @@ three partial injections with frontiers, `VR` congruence closure, links, lifting
   cells with pinned content: `SRel.allocTableRightPinned`, `SRel.pinnedTR` (content, below the frontier, related to
   nothing — in every later `SRel`, extensions keep pins), `SRel.setPinnedTR` (the owner rewrites it: `rawSet`,
   `setMany` are `setTable`), `le_repinT` (from the injection at the ENTRY of the owner's step every re-pinned
-  injection is an ordinary extension); likewise `…CR` for cells. Closure pins as in `HeapV`.
-* NOT yet: watched globals / watched locals with known bindings (the `.wat` plumbing of stage 3), left-side content
-  pins, an "original raises" flavour of `upto`.
+  injection is an ordinary extension); likewise `…CR` for cells, and `…TL` / `…CL` on the LEFT
+  (`SRel.allocTableLeftPinned`, `pinnedTL`, `setPinnedTL`, `le_repinTL`, …). Closure pins as in `HeapV`.
+* plumbing for consumers that run one-sided preludes themselves: `SRel.rebase` (change context and closure-body
+  relation while no closures are related — establish `cx.I` AFTER the preludes), `wrapCtl` / `observe_of_soundB`
+  (outcome of two `SoundB`-related blocks from GIVEN environments and states).
+* NOT yet: watched globals / watched locals with known bindings (the `.wat` plumbing of stage 3, `IdGlobal`), an
+  "original raises" flavour of `upto`.
 -/
 namespace DarkluaModel
 open Sem Sem.HeapU
